@@ -5,7 +5,14 @@ use std::collections::BTreeMap;
 
 pub const NAMES: [&str; 4] = ["a.txt", "b.txt", "pre.txt", "nodir/x.txt"];
 pub const PRE_CONTENT: &[u8] = b"l1\r\nx, y\r\n";
-pub const ITEMS: [(&str, &[u8]); 4] = [("\"ab\"", b"ab\r\n"), ("\"c,d\"", b"c,d\r\n"), ("5", b" 5 \r\n"), ("\"x\";", b"x")];
+pub const ITEMS: [(&str, &[u8]); 5] = [
+    ("\"ab\"", b"ab\r\n"),
+    ("\"c,d\"", b"c,d\r\n"),
+    ("5", b" 5 \r\n"),
+    ("\"x\";", b"x"),
+    // a character above 127 is one byte in the file and one character when read back
+    ("\"p\" + CHR$(200) + \"q\"", b"p\xC8q\r\n"),
+];
 pub const RECORDS: [&str; 3] = ["wxyz", "abcd", "pq"];
 
 #[derive(Clone, Copy, Debug, PartialEq, Eq, Hash, PartialOrd, Ord)]
